@@ -22,7 +22,10 @@ RULE = ("win: every strategy name (aliases included) x size (all of 0..24 quick 
         "wsymm[name](1) as exact binary64 values together with the math.cos/math.sin calls the implementation made; "
         "non-trivial = a known name, size >= 3, no exception; dict: every name of either dictionary and some absent "
         "names, observation = both dictionaries as name -> object identity plus .periodic/.symm of every object; "
-        "non-trivial = an alias or a non-distinct strategy; encl (extra): samples, symmetry and overlap-add sums "
+        "non-trivial = an alias or a non-distinct strategy; hist: histories inside one process (call twice, mutate a "
+        "returned list in place and call again, run overlap_add.list(..., wnd=sd[name], normalize=True) with hop "
+        "size/4 or size/2 before or between calls), every call result observed at once together with object identity; "
+        "non-trivial = contains a mutation or an overlap-add and every call returned a list; encl (extra): samples, symmetry and overlap-add sums "
         "enclosed against the real closed forms by the interval tactic")
 EXHAUSTIVE = {"quick": False, "thorough": False}
 trusted_base = [
@@ -105,42 +108,58 @@ class Recorder(object):
     return r
 
 
-def call_recorded(sd, name, size, alpha, coslog, sinlog):
+class recording(object):
+  """Context manager: while active, the cos / sin names seen by the generated function `fn` (and by every
+  function it wraps, following __wrapped__) are replaced by recorders."""
+  def __init__(self, fn, coslog, sinlog):
+    self.fn, self.logs, self.saved = fn, (("cos", coslog), ("sin", sinlog)), []
+
+  def __enter__(self):
+    f, seen = self.fn, set()
+    while f is not None and id(f) not in seen and len(seen) < 10:
+      seen.add(id(f))
+      g = getattr(f, "__globals__", None)
+      if isinstance(g, dict) and not any(g is sg for sg, _, _ in self.saved):
+        for k, log in self.logs:
+          if k in g and callable(g[k]) and not isinstance(g[k], Recorder):
+            self.saved.append((g, k, g[k]))
+            g[k] = Recorder(g[k], log)
+      f = getattr(f, "__wrapped__", None)
+    return self
+
+  def __exit__(self, *exc):
+    for g, k, v in self.saved:
+      g[k] = v
+    return False
+
+
+def call_recorded(sd, name, size, alpha, coslog, sinlog, raw=None):
   try:
     fn = sd[name]
   except Exception as e:
     return {"raise": type(e).__name__}
-  g = getattr(fn, "__globals__", None)
-  saved = {}
-  if isinstance(g, dict):
-    for k, log in (("cos", coslog), ("sin", sinlog)):
-      if k in g and callable(g[k]):
-        saved[k] = g[k]
-        g[k] = Recorder(g[k], log)
   try:
-    out = fn(size) if alpha is None else fn(size, alpha)
+    with recording(fn, coslog, sinlog):
+      out = fn(size) if alpha is None else fn(size, alpha)
+    if raw is not None:
+      raw.append(out)
     if not isinstance(out, list):
       return {"raise": "NotAList:" + type(out).__name__}
     return {"list": [enc_sample(v) for v in out]}
   except Exception as e:
     return {"raise": type(e).__name__}
-  finally:
-    for k, v in saved.items():
-      g[k] = v
 
 
-def run_win(c):
+def pow_table(name, alpha, coslog, sinlog):
+  """math.pow on everything a ** could have been applied to (independent of the outputs)"""
   import audiolazy
-  name, size, alpha = c["name"], c["size"], alpha_value(c["alpha"])
-  coslog, sinlog = [], []
-  w = call_recorded(audiolazy.window, name, size, alpha, coslog, sinlog)
-  s = call_recorded(audiolazy.wsymm, name, size + 1, alpha, coslog, sinlog)
-  o = call_recorded(audiolazy.wsymm, name, 1, alpha, coslog, sinlog)
-  # math.pow on everything a ** could have been applied to (independent of the outputs)
   a = alpha
   if a is None:
     try:
-      dfl = audiolazy.window[name].__defaults__
+      f = audiolazy.window[name]
+      while getattr(f, "__defaults__", None) is None and hasattr(f, "__wrapped__"):
+        f = f.__wrapped__
+      dfl = f.__defaults__
       a = dfl[0] if dfl else None
     except Exception:
       a = None
@@ -153,17 +172,29 @@ def run_win(c):
           continue
         seen.add(b.hex())
         try:
-          powlog.append((b.hex(), float(a).hex(), math.pow(b, float(a)).hex()))
+          powlog.append([b.hex(), float(a).hex(), math.pow(b, float(a)).hex()])
         except Exception:
           pass
+  return powlog
 
-  def dedup(log):
-    res, seen = [], set()
-    for kv in log:
-      if kv[0] not in seen:
-        seen.add(kv[0]); res.append(list(kv))
-    return res
-  return {"win": w, "sym": s, "one": o, "cos": dedup(coslog), "sin": dedup(sinlog), "pow": [list(p) for p in powlog]}
+
+def dedup(log):
+  res, seen = [], set()
+  for kv in log:
+    if kv[0] not in seen:
+      seen.add(kv[0]); res.append(list(kv))
+  return res
+
+
+def run_win(c):
+  import audiolazy
+  name, size, alpha = c["name"], c["size"], alpha_value(c["alpha"])
+  coslog, sinlog = [], []
+  w = call_recorded(audiolazy.window, name, size, alpha, coslog, sinlog)
+  s = call_recorded(audiolazy.wsymm, name, size + 1, alpha, coslog, sinlog)
+  o = call_recorded(audiolazy.wsymm, name, 1, alpha, coslog, sinlog)
+  return {"win": w, "sym": s, "one": o, "cos": dedup(coslog), "sin": dedup(sinlog),
+          "pow": pow_table(name, alpha, coslog, sinlog)}
 
 
 def flit(h):
@@ -338,11 +369,111 @@ def nontrivial_dict(c, o):
   return False
 
 
+# ------------------------------------------------------------------------------------------------ hist family
+# A history of uses inside one process.  Steps:
+#   ["call", "window"|"wsymm", name, size, alpha]    call the strategy, keep (a copy of) what it returned
+#   ["mutate", k]                                    overwrite in place the list returned by the k-th call
+#   ["ola", "window"|"wsymm", name, size, div]       overlap_add.list(blocks, hop=size//div, wnd=sd[name], normalize=True)
+def gen_hist(tier, rng):
+  rs = rows()
+  sizes = (8, 12) if tier == "quick" else (4, 8, 12, 16, 20, 32)
+  for names, has_alpha in rs:
+    p = names[0]
+    variants = [(p, None)]
+    if len(names) > 1:
+      variants.append((names[-1], None))
+    if has_alpha:
+      variants.append((p, ALPHA_POOL.get(p, [["int", 1]])[1]))
+    for size in sizes:
+      for nm, a in variants:
+        yield {"steps": [["call", "window", nm, size, a], ["call", "window", nm, size, a],
+                         ["call", "wsymm", nm, size + 1, a], ["call", "wsymm", nm, size + 1, a]],
+               "tags": ["twice", "name=" + p]}
+        yield {"steps": [["call", "window", nm, size, a], ["mutate", 0], ["call", "window", nm, size, a],
+                         ["call", "wsymm", nm, size + 1, a], ["mutate", 2], ["call", "wsymm", nm, size + 1, a],
+                         ["call", "window", nm, size, a]],
+               "tags": ["mutate-result", "name=" + p]}
+      for div in (4, 2):
+        yield {"steps": [["call", "window", p, size, None], ["ola", "window", p, size, div],
+                         ["call", "window", p, size, None], ["call", "wsymm", p, size + 1, None]],
+               "tags": ["ola-between", "name=" + p, "div=%d" % div]}
+        yield {"steps": [["ola", "window", p, size, div], ["call", "window", p, size, None],
+                         ["call", "wsymm", p, size + 1, None]],
+               "tags": ["ola-first", "name=" + p, "div=%d" % div]}
+        yield {"steps": [["call", "wsymm", p, size + 1, None], ["ola", "wsymm", p, size + 1, div],
+                         ["call", "wsymm", p, size + 1, None], ["call", "window", p, size, None]],
+               "tags": ["ola-wsymm", "name=" + p, "div=%d" % div]}
+
+
+def run_hist(c):
+  import audiolazy
+  from audiolazy import Stream, overlap_add, inf
+  dicts = {"window": audiolazy.window, "wsymm": audiolazy.wsymm}
+  coslog, sinlog = [], []
+  raws, outs = [], []       # raws keeps every returned object alive, so that `is` means something
+  powlog = []
+  for st in c["steps"]:
+    if st[0] == "call":
+      _, sd, name, size, a = st
+      raw = []
+      r = call_recorded(dicts[sd], name, size, alpha_value(a), coslog, sinlog, raw)
+      obj = raw[0] if raw else None
+      r["aliased"] = obj is not None and any(obj is x for x in raws)
+      raws.append(obj)
+      outs.append(r)
+      powlog += pow_table(name, alpha_value(a), coslog, sinlog)
+    elif st[0] == "mutate":
+      obj = raws[st[1]] if st[1] < len(raws) else None
+      try:
+        if isinstance(obj, list):
+          obj[:] = [3.25 + k for k in range(len(obj))]
+        outs.append({"other": "mutated"})
+      except Exception as e:
+        outs.append({"other": "raise " + type(e).__name__})
+    else:
+      _, sd, name, size, div = st
+      hop = max(1, size // div)
+      try:
+        fn = dicts[sd][name]
+        sig = [((7 * k) % 11 - 5) / 8.0 for k in range(6 * size)]
+        with recording(fn, coslog, sinlog):
+          blks = Stream(sig).blocks(size=size, hop=hop)
+          res = overlap_add.list(blks, hop=hop, wnd=fn, normalize=True).take(inf)
+        outs.append({"other": "ola %d" % len(res)})
+      except Exception as e:
+        outs.append({"other": "raise " + type(e).__name__})
+  seen, pw = set(), []
+  for t in powlog:
+    if (t[0], t[1]) not in seen:
+      seen.add((t[0], t[1])); pw.append(t)
+  return {"outs": outs, "cos": dedup(coslog), "sin": dedup(sinlog), "pow": pw}
+
+
+def lit_hist(c, o):
+  if "outs" not in o:
+    o = {"outs": [{"raise": "?"} if st[0] == "call" else {"other": "?"} for st in c["steps"]], "cos": [], "sin": [], "pow": []}
+  steps = []
+  for st, r in zip(c["steps"], o["outs"]):
+    if st[0] == "call":
+      steps.append("HCall %s %s %s %s %s %s" % ("Window" if st[1] == "window" else "Wsymm", L.string(st[2]), L.z(st[3]),
+                                                alpha_lit(st[4]), res_lit(r), L.boolean(r.get("aliased", False))))
+    else:
+      steps.append("HOther")
+  t1 = lambda tab: L.lst(["(%s, %s)" % (flit(k), flit(v)) for k, v in tab])
+  t2 = L.lst(["(%s, %s, %s)" % (flit(a), flit(b), flit(v)) for a, b, v in o["pow"]])
+  return "(HC %s %s %s %s)" % (t1(o["cos"]), t1(o["sin"]), t2, L.lst(steps))
+
+
+def nontrivial_hist(c, o):
+  return any(st[0] != "call" for st in c["steps"]) and all("list" in r for r in o.get("outs", []) if "other" not in r)
+
+
 IMPORTS = ("From Coq Require Import Floats.PrimFloat.\n"
            "From AL Require Import C14.Model C14.Gen_Windows C14.Spec C14.Check.")
 FAMILIES = {
   "win": Family("win", IMPORTS, "wcase", "corr_win", "holds_win", gen_win, run_win, lit_win, nontrivial_win),
   "dict": Family("dict", IMPORTS, "dcase", "corr_dict", "holds_dict", gen_dict, run_dict, lit_dict, nontrivial_dict),
+  "hist": Family("hist", IMPORTS, "hcase", "corr_hist", "holds_hist", gen_hist, run_hist, lit_hist, nontrivial_hist),
 }
 
 
